@@ -199,6 +199,11 @@ pub fn observe(script: &Script, log: &MultiRecordLog, dir: &Path, probe_seed: u6
         "mem": [usage.memory_used_bytes, usage.memory_allocated_bytes],
         "disk": usage.disk_used_bytes,
         "files": wal_files_in(dir),
+        // real total size of the WAL files in the directory
+        "dsum": wal_files_in(dir)
+            .iter()
+            .map(|number| std::fs::metadata(dir.join(format!("wal-{number:020}"))).map(|meta| meta.len()).unwrap_or(0))
+            .sum::<u64>(),
         "w": [snapshot.writer_file, snapshot.writer_offset, snapshot.writer_buffered],
         "trk": trk, "snap": snap,
     })
